@@ -26,7 +26,7 @@ RULE = (
     "unicode, surrogate-escaped bytes, leading/trailing blanks; timestamps at the year limits with offsets; grouped "
     "records) written by the real writer under options fields / exclude (lists, comma strings, URI query; unknown, "
     "repeated and metadata names) x lineterminator {default,\\n,\\r\\n,\\r} x verbose x format templates (known and "
-    "unknown keys, conversions, format specs, escaped braces); csvread = a CSV file (harness-written with delimiter "
+    "unknown keys, conversions, format specs, escaped braces, the documented \\t \\n \\r escapes mixed with other backslash sequences, a trailing backslash and non-ASCII / surrogate-escaped literal text, given as keyword argument or text://...?format_spec= query); csvread = a CSV file (harness-written with delimiter "
     ", ; TAB | x terminator, or written by CsvfileWriter) with safe cells read through RecordReader('csvfile://').  "
     "Non-trivial = at least one record rendered / read; distinct = distinct (kind, option set, type shapes, sub-seed).  "
     "Oracle: written bytes decoded with surrogateescape; CSV parsed by csv.reader (excel dialect) == header row per run "
@@ -41,7 +41,9 @@ ASSUMPTIONS = [
     "the process encoding is UTF-8 (the CSV writer opens its file with the locale encoding)",
     "the column / line order of a grouped record's flat view is not pinned (compared as a mapping); for plain records the order is the descriptor's or the fields option's",
     "field names equal to GroupedRecord's own attributes (name, records, ...) are not generated here (C15 known finding)",
-    "format templates use plain {key}, {key!r}, {key:spec}; a spec Python's format() refuses for the value makes the case undefined; backslash escapes in templates and attribute/index access are not generated",
+    "format templates use plain {key}, {key!r}, {key:spec}; a spec Python's format() refuses for the value makes the case undefined; attribute/index access is not generated",
+    "in a template exactly the writer's three documented two-character escapes (backslash r, n, t) are translated, over the whole template and before formatting; every other backslash sequence, a trailing backslash and non-ASCII / surrogate-escaped literal text come out unchanged; field VALUES containing such sequences are never translated",
+    "format_spec is passed as keyword argument, percent-quoted URI query or raw URI query (raw only without & # + % TAB CR LF, surrounding blanks; a surrogate-escaped literal only as keyword argument because the URI parser cannot carry undecodable bytes)",
     "CSV read-back is restricted to unambiguous content: >= 2 columns, >= 1 data row, cells without delimiter candidates, quotes, blanks or line breaks, file < 1000 characters, and the standard csv.Sniffer on the whole text identifies the delimiter used (otherwise the case is skipped and counted)",
     "'extreme' (70 kB+) values are left out to keep cells below csv.field_size_limit of the parsing side",
 ]
@@ -67,7 +69,7 @@ TEXTY = ("string", "wstring", "uri")
 HOSTILE_TEXT = [
     "a,b", 'q"uote', '""', '"', ",", ",,", "line\nbreak", "cr\rreturn", "crlf\r\nx", "\r", "\n", "\r\n", "tab\there", "nul\x00x", " lead",
     "trail ", "  ", "sur\udcff", "\udc80\udcfe", "unié中😀", "=1+1", "'single'", "a\\b", ";", "|", "--[ RECORD 1 ]--", "x = y", "{s}", "{}", "%s",
-    "end\r", "\nstart", 'a"b,c\nd', "None", "",
+    "end\r", "\nstart", 'a"b,c\nd', "None", "", "x\\ny", "\\t", "C:\\new\\table\\r", "\\",
 ]
 TOKENS = [",", '"', "\r", "\n", "\r\n", "\t", " ", "a", "é", "\udcff", "\x00", "b", ";", "'"]
 TZ = _dt.timezone
@@ -245,6 +247,23 @@ def open_writer(rng, scheme, path, opts):
                 kwargs[k] = ",".join(v)
             else:
                 query.append("%s=%s" % (k, ",".join(v)))
+        elif k == "format_spec":
+            import urllib.parse
+
+            surrogate = any(0xD800 <= ord(c) <= 0xDFFF for c in v)
+            raw_ok = not surrogate and not any(c in v for c in "&#+%\t\r\n") and v == v.strip() and v != ""
+            form = rng.choice(["kwarg", "query-quoted", "query-raw"])
+            if form == "query-raw" and not raw_ok:
+                form = "query-quoted"
+            if form == "query-quoted" and surrogate:
+                form = "kwarg"  # a URI cannot carry undecodable bytes through parse_qsl
+            if form == "kwarg":
+                kwargs[k] = v
+            elif form == "query-quoted":
+                query.append("%s=%s" % (k, urllib.parse.quote(v, safe="")))
+            else:
+                query.append("%s=%s" % (k, v))
+            forms.append("%s:%s" % (k, form))
         elif isinstance(v, str) and k == "lineterminator" and "\\" in v and rng.random() < 0.5:
             query.append("%s=%s" % (k, v))
             forms.append("%s:query" % k)
@@ -520,14 +539,23 @@ SPECS = {
     "boolean": ["", "!r", "!s"], "path": ["", "!r", "!s"], "digest": ["", "!r"], "command": ["", "!r"],
 }
 LITERALS = [" ", "|", ", ", " = ", "Hello ", "é日", "{{", "}}", "{{x}}", "\t", ":", "%s", "<", ">", "\n", "[", "]"]
+# the writer's documented two-character escapes, other backslash sequences (must stay literal) and non-ASCII literal text
+ESCAPES = ["\\t", "\\n", "\\r"]
+BACKSLASH_LITERALS = ["\\x41", "\\u20ac", "\\\\", "\\", "\\N", "\\0", "\\\\n", "C:\\temp\\new", "\\T", "\\ "]
+NONASCII_LITERALS = ["naïve → ", " €", "日本語", "😀", "\udcff", "ü\udc80", "→", "Ω≈ç"]
 
 
 def make_template(rng, names, values, types):
     parts = []
     info = {"known": 0, "unknown": 0, "spec": 0, "conv": 0}
+    rich = rng.random() < 0.6  # templates mixing escapes, other backslash sequences and non-ASCII literals
     for _ in range(rng.randint(1, 6)):
         if rng.random() < 0.6:
             parts.append(rng.choice(LITERALS))
+        if rich:
+            for pool in (NONASCII_LITERALS, ESCAPES, BACKSLASH_LITERALS, NONASCII_LITERALS):
+                if rng.random() < 0.35:
+                    parts.append(rng.choice(pool))
         r = rng.random()
         if r < 0.2 or not names:
             parts.append("{%s}" % rng.choice(["nope", "missing_key", "Record", "args", "x9"]))
@@ -548,6 +576,8 @@ def make_template(rng, names, values, types):
         info["known"] += 1
     if rng.random() < 0.4:
         parts.append(rng.choice(LITERALS))
+    if rich and rng.random() < 0.3:
+        parts.append(rng.choice(ESCAPES + NONASCII_LITERALS + ["\\"]))  # incl. a trailing backslash
     return "".join(parts), info
 
 
@@ -560,9 +590,8 @@ def do_text(ctx, case, mk):
     if rng.random() < 0.6:
         names, values, types, _ = tm.slots_and_values(records[0])
         template, info = make_template(rng, names, values, types)
-        if "\\" in template:
-            template = template.replace("\\", "/")
     opts = {"format_spec": template}
+    effective = None if template is None else tm.translate_escapes(template)
     ctx.ev()
     if template is None:
         records = split_renderable(ctx, records, repr, "text")
@@ -576,8 +605,8 @@ def do_text(ctx, case, mk):
             expected.append(repr(r))
         else:
             try:
-                expected.append(tm.apply_template(template, tm.slots_and_values(r)[1]))
-            except tm.Undefined as e:
+                expected.append(tm.apply_template(effective, tm.slots_and_values(r)[1]))
+            except (tm.Undefined, ValueError) as e:
                 undefined = str(e)
                 break
     ctx.cell("text", "repr" if template is None else "template",
@@ -614,6 +643,20 @@ def do_text(ctx, case, mk):
                 return
             ctx.event("text_repr_fields_checked")
     else:
+        n_esc = sum(template.count(e) for e in ESCAPES)
+        nonascii = any(ord(c) > 127 for c in template)
+        other_bs = effective.count("\\")
+        ctx.event("text_template_escapes_translated", n_esc)
+        ctx.event("text_template_backslashes_kept_literal", other_bs)
+        if nonascii:
+            ctx.event("text_templates_with_nonascii_literal")
+        if nonascii and n_esc:
+            ctx.event("text_templates_with_escape_and_nonascii")
+        if any(0xDC80 <= ord(c) <= 0xDCFF for c in template):
+            ctx.event("text_templates_with_surrogate_literal")
+        if template.endswith("\\"):
+            ctx.event("text_templates_with_trailing_backslash")
+        ctx.cell("text-template", "escape" if n_esc else "noescape", "backslash" if other_bs else "nobackslash", "nonascii" if nonascii else "ascii")
         ctx.event("text_template_known_keys", info["known"] * len(records))
         ctx.event("text_template_unknown_keys", info["unknown"] * len(records))
         ctx.event("text_template_specs", (info["spec"] + info["conv"]) * len(records))
@@ -738,5 +781,6 @@ def finish(ctx):
     for q in ANCHORS:
         ctx.require(ctx.reach.get(q, 0) > 0, "anchor %s was never entered" % q)
     for ev in ("csv_rows_checked", "csv_type_changes", "line_field_lines_matched", "text_records_matched", "text_repr_fields_checked",
-               "text_template_unknown_keys", "csvread_cells_checked", "cell:surrogate", "cell:quote", "cell:comma", "cell:cr", "cell:lf"):
+               "text_template_unknown_keys", "text_template_escapes_translated", "text_template_backslashes_kept_literal",
+               "text_templates_with_escape_and_nonascii", "csvread_cells_checked", "cell:surrogate", "cell:quote", "cell:comma", "cell:cr", "cell:lf"):
         ctx.require(ctx.events.get(ev, 0) > 0, "monitor / workload class %s never ran" % ev)
